@@ -49,6 +49,16 @@ class AtomsSer(Ext):
             return self.positions
         if name == "calc":
             return self.calc
+        if name in ("get_potential_energy", "get_kinetic_energy") and self.k > 0:
+            # energies are FUNCTIONS of the configuration (uninterpreted): equal configurations have equal energies
+            def en(I_, a, k, name=name):
+                if name == "get_potential_energy":
+                    xs = [to_z3(x, "real") for x in self.positions.data] + [to_z3(x, "real") for x in self.cell.array.data]
+                else:
+                    xs = [to_z3(x, "real") for x in self.momenta.data]
+                f = z3.Function(f"{name[4:]}_{self.k}", *([z3.RealSort()] * (len(xs) + 1)))
+                return mk(f(*xs))
+            return Builtin(name, en)
         if name in ("get_potential_energy", "get_kinetic_energy", "__len__"):
             return Builtin(name, lambda I_, a, k: I_.path.fresh(name))
         raise Unsupported(f"Atoms.{name} (serialization view)")
